@@ -52,7 +52,19 @@ func (c *Ctx) edgeMust(P, rule, fnName, condRe string, truth bool, mustRe string
 			if depth < throughMax {
 				for _, ins := range b.Instrs {
 					if callee, args := newCallee(ins); callee != nil {
-						inFrame(callee, args, func() { scan(callee, depth+1) })
+						// only a function that itself contains the construct owes it on its own edges; a
+						// predicate or check whose verdict the caller branches on is judged at that branch
+						inFrame(callee, args, func() {
+							has := false
+							for _, cb := range callee.Blocks {
+								if blockHas(c, cb, mustRe) {
+									has = true
+								}
+							}
+							if has {
+								scan(callee, depth+1)
+							}
+						})
 					}
 				}
 			}
